@@ -11,6 +11,7 @@ pub mod c10;
 pub mod c11;
 pub mod c12;
 pub mod c15;
+pub mod c16;
 pub mod c17;
 pub mod c19;
 pub mod c20;
@@ -64,6 +65,7 @@ pub fn dispatch(run: &mut Run) -> bool {
         "C11" => c11::run(run),
         "C12" => c12::run(run),
         "C15" => c15::run(run),
+        "C16" => c16::run(run),
         "C17" => c17::run(run),
         "C19" => c19::run(run),
         "C20" => c20::run(run),
